@@ -26,6 +26,25 @@ pub fn exec(case: &Value) -> Value {
             vec![("x", json!(sc(x, 256.0))), ("vd", json!(sc(a.to_degs(), 256.0))), ("vr", json!(sc(a.to_rads(), 256.0))),
                  ("vt", json!(sc(a.to_turns(), 65536.0)))]
         }
+        "polbig" => {
+            // an azimuth of many revolutions: to_cart is r (cos az, sin az) of THAT angle - compared with
+            // sin_cos of the same Angle value (f32 cannot name such an angle exactly, so no absolute expectation)
+            let a = degs(fb(case, "ab"));
+            let r = gi(case, "R") as f32;
+            let v = polar(r, a).to_cart();
+            let (sn, cs) = a.sin_cos();
+            let w = spherical(r, a, degs(0.0)).to_cart();
+            vec![("x", json!(sc(v.x(), 65536.0))), ("y", json!(sc(v.y(), 65536.0))), ("s", json!(sc(sn, 65536.0))), ("c", json!(sc(cs, 65536.0))),
+                 ("sx", json!(sc(w.x(), 65536.0))), ("sz", json!(sc(w.z(), 65536.0)))]
+        }
+        "convx" => {
+            // extreme but finite angles, given as 2^k in the unit u: the other units are finite whenever
+            // they are representable, and have the right binade
+            let x = 2f32.powi(gi(case, "kx") as i32) * if gi(case, "neg") == 1 { -1.0 } else { 1.0 };
+            let a = match gs(case, "u") { "deg" => degs(x), "rad" => rads(x), _ => turns(x) };
+            let ex = |v: f32| -> i64 { if v == 0.0 { -999 } else if !v.is_finite() { 999 } else { (v.abs() as f64).log2().floor() as i64 } };
+            vec![("ed", json!(ex(a.to_degs()))), ("er", json!(ex(a.to_rads()))), ("et", json!(ex(a.to_turns())))]
+        }
         "wrap" => {
             let (a, lo, hi) = (fb(case, "ab"), fb(case, "lob"), fb(case, "hib"));
             let r = degs(a).wrap(degs(lo), degs(hi)).to_degs();
@@ -133,6 +152,14 @@ pub fn gen(args: &Args, out: &mut dyn Write) {
             _ => lo - rng.unit_f64() as f32 * (hi - lo) * 2.0, // one to two periods below the interval
         };
         emit(out, json!({"op": "wrap", "ab": hx(a), "lob": hx(lo), "hib": hx(hi)}));
+        if i % 4 == 0 {
+            let big = ((rng.unit_f64() - 0.5) * 2.0 * *rng.pick(&[4.0e3f64, 4.0e5, 3.0e6])) as f32;
+            emit(out, json!({"op": "polbig", "ab": hx(big), "R": rng.range(1, 9)}));
+        }
+        if i % 16 == 1 {
+            let u = *rng.pick(&["deg", "rad", "turn"]);
+            emit(out, json!({"op": "convx", "u": u, "kx": rng.range(-126, 126), "neg": rng.below(2)}));
+        }
         let f = |rng: &mut Rng| ((rng.unit_f64() - 0.5) * 2000.0) as f32;
         emit(out, json!({"op": "arith", "ab": hx(f(&mut rng)), "bb": hx(f(&mut rng)), "cb": hx(f(&mut rng)),
                          "kf": *rng.pick(&[2i64, 3, -2, 4, -5, 7])}));
